@@ -415,6 +415,31 @@ def build_any(mt, order=None, **kw):
 _SEP_HISTORY = [None]
 
 
+def refused_extract(mt, g, lex):
+    """Part of a history: a tree the extraction must refuse - this model tree with one constituent emptied by hand (a
+    childless node without a token number) - is offered to grammar.extract with the caller's grammar and lexicon.
+    Returns True if the call was refused (the caller then expects grammar and lexicon to be what they were)."""
+    from trees import grammar
+    t = build(mt)
+    stack, victim = [t], None
+    while stack:
+        x = stack.pop()
+        if x.children and x is not t:
+            victim = x
+        stack.extend(x.children)
+    if victim is None:
+        return None
+    for c in victim.children:
+        c.parent = None
+    victim.children = []
+    with quiet():
+        try:
+            grammar.extract(t, g, lex)
+            return False
+        except Exception:
+            return True
+
+
 def reader_history():
     """Part of a process history: some other corpus was read earlier with reader options of its own (gf_split with
     the separator '#', from each of the three readers in turn).  Whatever that leaves behind in the process must
